@@ -240,6 +240,23 @@ def judge(hs, ast, text, rows, judged, st, sig, case, check_header=True):
                 if defin and not any(row_eval(hs, g, text, index[id(r)])[0] == 'ok' for _, r, _ in expected):
                     st.fail('valid-filter-rejected', dict(sig, exc=out[1]), case, {'filter': text, 'exc': out[2]})
                     ok = False
+    # the same rows, but the grid GROWS between two evaluations: first half, evaluate, append the rest one by one, evaluate
+    if out[0] == 'ok' and len(rows) >= 2:
+        h = len(rows) // 2
+        g2, objs2 = build_grid(hs, rows[:h])
+        run_filter(hs, g2, text)
+        for r in rows[h:]:
+            o = {kk: O.build(v, hs) for kk, v in r.items()}
+            g2.append(o)
+            objs2.append(o)
+        out2 = run_filter(hs, g2, text)
+        st.count('executions')
+        pos1 = [k for x in out[1] for k, o in enumerate(objs) if o is x]
+        pos2 = [k for x in out2[1] for k, o in enumerate(objs2) if o is x] if out2[0] == 'ok' else 'raised ' + str(out2[1])
+        if pos2 != pos1:
+            st.fail('filter-result-differs-on-a-grid-that-grew-after-an-earlier-evaluation', sig, case,
+                    {'filter': text, 'rows_selected_on_the_grid_built_at_once': pos1, 'rows_selected_after_growing': pos2, 'appended_from': h})
+            ok = False
     after = O.observe_grid(g, hs)
     if N.same(before, after, 'exact') or N.same(after, before, 'exact'):
         st.fail('filter-modified-the-source-grid', sig, case, {'filter': text})
@@ -452,6 +469,29 @@ def hot_filter_history(st, n=1300):
     return True
 
 
+# ---- (3d) NaN: whatever a comparison with NaN answers, a unit must not change the answer ---------------------
+
+def nan_consistency(st):
+    """The reference leaves comparisons with NaN unpinned (IEEE says false, the Java reference orders NaN last).  Pinned here:
+    `a op 5` on a NaN cell and `a op 5kW` on a NaN-kW cell answer alike (NaN with a unit is not a literal, so no mirrored pair)."""
+    import hszinc as hs
+    nan = float('nan')
+    for op in CMPOPS:
+        answers = {}
+        for label, lit, cell in (('plain', N.num(5.0), N.num(nan)), ('unit', N.num(5.0, 'kW'), N.num(nan, 'kW'))):
+            rows = [{'id': ('str', 'r0'), 'a': cell}, {'id': ('str', 'r1'), 'a': lit}]
+            g, objs = build_grid(hs, rows)
+            text = RF.render(('cmp', op, ('a',), lit))
+            out = run_filter(hs, g, text)
+            st.count('executions')
+            answers[label] = [k for x in out[1] for k, o in enumerate(objs) if o is x] if out[0] == 'ok' else 'raised ' + str(out[1])
+        st.case(('nan', op), outcome=('nan', str(answers)))
+        for a, b in (('plain', 'unit'),):
+            if answers[a] != answers[b]:
+                st.fail('unit-changes-the-answer-of-a-comparison-with-NaN', {'part': 'nan', 'op': op, 'pair': a}, {'part': 'nan'},
+                        {'op': op, 'rows_selected': answers})
+
+
 # ---- (4) limit, empty filter -----------------------------------------------------------------------
 
 def limit_checks(st):
@@ -547,6 +587,7 @@ def run(ctx):
         st.merge(part)
     for part in pmap(_hot_task, [(1300 if ctx.quick else 4000,)], ctx.jobs):
         st.merge(part)
+    nan_consistency(st)
     limit_checks(st)
     spacing_checks(st)
     unversioned_checks(st)
@@ -582,6 +623,9 @@ def replay(case, st):
     p = case['part']
     if p == 'pair':
         st.merge(pair_task([(case['l1'], case['l2'], case['conn'], case['op1'], case['op2'])]))
+        return
+    if p == 'nan':
+        nan_consistency(st)
         return
     if p == 'hot-history':
         hot_filter_history(st, 4000)
